@@ -2193,3 +2193,70 @@ def run_argdeviant(prog, ctx=None):
                         f.qn, nm, cnt, ", ".join(args), now[args], t[diff[0]], args[diff[0]])
             res.ob("%s:%s" % (k.split(":", 1)[1], nm), ok, f, f.line, msg)
     return res
+
+
+def index_steps(prog, f):
+    """index variable name -> [loops in which every way round passes its single unit step, loops in which some way round avoids it]
+    for the loops of f that subscript with a local stepped by `++` / `+= c` in exactly one block of the loop and not assigned
+    otherwise inside it"""
+    from .rules_node import _natural_loops
+    out = {}
+    loops = _natural_loops(f)
+    for h, body in sorted(loops.items()):
+        idx_vars, steps, other = {}, {}, set()
+        for bid in body:
+            blk = f.blocks[bid]
+            trees = list(blk.el)
+            if blk.term and isinstance(blk.term.get("cond"), dict):
+                trees.append(blk.term["cond"])
+            for t in trees:
+                for n in walk(t):
+                    if n.get("k") == "idx":
+                        iv = strip(n["i"], all_casts=True)
+                        if iv.get("k") == "ref" and iv["d"].get("dk") == "local":
+                            idx_vars[iv["d"]["id"]] = iv["d"]["n"]
+                    tgt = None
+                    if n.get("k") == "un" and n.get("op") == "++":
+                        tgt = strip(n["e"], lvalue_to_rvalue=False)
+                    elif n.get("k") == "bin" and n.get("op") == "+=" and cval(n["b"]) is not None:
+                        tgt = strip(n["a"], lvalue_to_rvalue=False)
+                    elif n.get("k") == "bin" and n.get("op") == "=":
+                        t2 = strip(n["a"], lvalue_to_rvalue=False)
+                        if t2.get("k") == "ref" and "id" in t2["d"]:
+                            other.add(t2["d"]["id"])
+                    if tgt is not None and tgt.get("k") == "ref" and "id" in tgt["d"]:
+                        steps.setdefault(tgt["d"]["id"], set()).add(bid)
+        srcs = [s for s in body if h in f.blocks[s].succ]
+        for vid, vname in sorted(idx_vars.items()):
+            sb = steps.get(vid)
+            if not sb or h in sb or vid in other or len(sb) != 1:
+                continue
+            reach = {h} | {x for x in f.reachable_from(h, avoid=sb) if x in body}
+            bad = [s for s in srcs if s in reach and s not in sb]
+            ent = out.setdefault(vname, [0, 0])
+            ent[1 if bad else 0] += 1
+    return out
+
+
+def run_indexstep(prog, ctx=None):
+    """INDEXSTEP: in a loop that walks an array by an index it steps itself once per round (`i++` at the end of the body), every
+    way round the loop takes that step: a `continue` in front of the step examines the same element again and again until the
+    loop's other counter runs out.  The loops that are uniformly stepped in the unchanged tree are listed in mustcheck.json; a
+    function that now has more loops with a way round its step than the reference has lost that uniformity."""
+    import json as _json, os as _os
+    res = Result("INDEXSTEP")
+    ref = _json.load(open(_os.path.join(_os.path.dirname(_os.path.abspath(__file__)), "mustcheck.json"))).get("stepped", {})
+    byname = {f.file + ":" + f.qn: f for f in prog.functions.values()}
+    for k, vars_ in sorted(ref.items()):
+        f = byname.get(k)
+        if f is None or f.nocfg:
+            continue
+        cur = index_steps(prog, f)
+        for vname, (good0, bad0) in sorted(vars_.items()):
+            if vname not in cur:
+                continue
+            good1, bad1 = cur[vname]
+            ok = bad1 <= bad0
+            res.ob("%s:%s" % (k.split(":", 1)[1], vname), ok, f, f.line,
+                   "" if ok else "%s: a loop that indexes with `%s` and steps it once in its body now has a way round (a continue) that does not pass the step; in the reference tree every round took it" % (f.qn, vname))
+    return res
